@@ -17,7 +17,10 @@ use core::borrow::Borrow;
 use core::mem::{self, ManuallyDrop};
 use core::ops::Deref;
 use core::ptr;
+#[cfg(not(arc_swap_verif))]
 use core::sync::atomic::AtomicPtr;
+#[cfg(arc_swap_verif)]
+use crate::verif::AtomicPtr;
 use core::sync::atomic::Ordering::*;
 
 use super::sealed::{CaS, InnerStrategy, Protected};
